@@ -39,6 +39,14 @@ CHECKS["C18"] = (
     "5/C18",
 )
 
+CHECKS["C17"] = (
+    "RmqOps.tla + Rmq.tla + Lca.tla + RmqGen.tla + TraceLca.tla",
+    "TLC: sparse-table build and two-block query as a state machine (TableInv, AnswerInv against RangeMin by definition) for every array of the bound; Euler-tour LCA machine (TourInv, TieFree, AnswerInv, DerivedInv against definitions on parent chains) for every rooted ordered tree of the bound; every TLC-generated query replayed through RangeMinQuery / LowestCommonAncestor under three node-naming schemes; random larger structures validated by a TLA+ trace spec",
+    "Model checking of both structures against their declarative definitions on the bounded domain, bounded-exhaustive spec->code replay of every query, trace validation up to 40 nodes / elements.",
+    "Trusts TLC and the definitions on parent chains in RmqOps.tla/Trees.tla; trees <= 7 (8) nodes, arrays <= 7 (9) over 3 values exhaustively; queries inside the structure.",
+    "5/C17",
+)
+
 NOT_YET = {}
 
 
